@@ -175,6 +175,12 @@ fn do_act(w: &mut World, net: &mut HonestNet, a: &Act, hook: &mut ForkWatch) -> 
             let n = chain.tip().saturating_sub(*back).max(1);
             let b = &chain.blocks[n as usize];
             let (is_tx, h): (bool, ckb_types::H256) = if *tx { (true, b.transactions().last().map(|t| t.hash()).unwrap_or_else(|| b.hash()).unpack()) } else { (false, b.hash().unpack()) };
+            ASKED.with(|a| {
+                let mut a = a.borrow_mut();
+                if !a.contains(&(is_tx, h.clone())) {
+                    a.push((is_tx, h.clone()));
+                }
+            });
             guarded(|| {
                 if is_tx {
                     let _ = w.c().rpc_tx().fetch_transaction(h.clone());
@@ -218,6 +224,11 @@ fn do_act(w: &mut World, net: &mut HonestNet, a: &Act, hook: &mut ForkWatch) -> 
     }
 }
 
+thread_local! {
+    /// what the user asked for through fetch_header / fetch_transaction during the current run: (is transaction, hash)
+    static ASKED: RefCell<Vec<(bool, ckb_types::H256)>> = RefCell::new(vec![]);
+}
+
 /// run the history; crash before write number `crash_at` (1-based) if given
 fn run_history(h: &History, params: &super::super::chain::ChainParams, ccfg: &super::super::client::ClientCfg, crash_at: Option<u64>) -> RunResult {
     run_history_x(h, params, ccfg, crash_at, None)
@@ -227,6 +238,7 @@ fn run_history(h: &History, params: &super::super::chain::ChainParams, ccfg: &su
 /// simulated client continues from *that* store
 fn run_history_x(h: &History, params: &super::super::chain::ChainParams, ccfg: &super::super::client::ClientCfg, crash_at: Option<u64>, swap_from: Option<&std::path::Path>) -> RunResult {
     let (now, _) = time_base();
+    ASKED.with(|a| a.borrow_mut().clear());
     let counter = Rc::new(RefCell::new((0u64, Vec::<(&'static str, String)>::new(), String::from("open"), String::new())));
     let c2 = counter.clone();
     crate::verif_hook::install(Box::new(move |site| {
@@ -466,6 +478,37 @@ fn run_history_x(h: &History, params: &super::super::chain::ChainParams, ccfg: &
             hashes.extend(m.keys().map(|k| k.pack()));
         }
         res.stale_matched = hashes.iter().any(|h| chain.num_of(h).is_none());
+    }
+    // the user's fetch calls belong to "the same RPC answers as without the crash": after the recovery every hash that was asked for is
+    // asked again - the RPCs must answer (no abort), and a transaction reported as committed / fetched comes with a stored header
+    if !w.dead && w.client.is_some() && res.panic.is_none() {
+        use crate::service::{ChainRpc, TransactionRpc};
+        let asked: Vec<(bool, ckb_types::H256)> = ASKED.with(|a| a.borrow().clone());
+        for (is_tx, h) in asked {
+            let r = guarded(|| {
+                if is_tx {
+                    let g = w.c().rpc_tx().get_transaction(h.clone());
+                    let _ = w.c().rpc_tx().fetch_transaction(h.clone());
+                    g.ok().and_then(|t| serde_json::to_value(&t).ok()).and_then(|v| v["tx_status"]["block_hash"].as_str().map(|s| s.to_string()))
+                } else {
+                    let _ = w.c().rpc_chain().fetch_header(h.clone());
+                    None
+                }
+            });
+            match r {
+                Err(super::super::util::Unwound::Panic(p)) => {
+                    res.panic = Some(format!("rpc:{}: {} at {}", if is_tx { "get_transaction/fetch_transaction" } else { "fetch_header" }, p.message, p.location));
+                    break;
+                }
+                Ok(Some(bh)) => {
+                    let stored = serde_json::from_value::<ckb_types::H256>(serde_json::json!(bh)).ok().and_then(|hh| w.c().rpc_chain().get_header(hh).ok().flatten()).is_some();
+                    if !stored && res.mismatch.is_none() {
+                        res.mismatch = Some(format!("get_transaction reports a block ({}) whose header is not stored", bh));
+                    }
+                }
+                _ => {}
+            }
+        }
     }
     res.rebased_start = watch.rebased_start;
     res.banned = w.bans.first().map(|(_, r)| r.split(':').next().unwrap_or("").to_string());
